@@ -58,10 +58,56 @@ var knownPanics = []knownPanic{
 			ytypes.UnmarshalSetRequest(schemaWith(v, v.NewRoot()), &gpb.SetRequest{Update: []*gpb.Update{nil}})
 		})
 	}},
+	{F81, func(p *panicInfo) bool {
+		return strings.Contains(p.Val, "interface conversion: error is") && strings.Contains(p.Val, "not *ytypes.ComplianceErrors") &&
+			firstRepoFrame(p.Stack) == "github.com/openconfig/ygot/ytypes.UnmarshalSetRequest"
+	}, func() *panicInfo {
+		v := variantByName("vtu")
+		req := &gpb.SetRequest{Prefix: &gpb.Path{Origin: "a"}, Update: []*gpb.Update{{Path: &gpb.Path{Origin: "b", Elem: []*gpb.PathElem{{Name: "top"}, {Name: "s"}}},
+			Val: &gpb.TypedValue{Value: &gpb.TypedValue_StringVal{StringVal: "x"}}}}}
+		return catch(func() { ytypes.UnmarshalSetRequest(schemaWith(v, v.NewRoot()), req, &ytypes.BestEffortUnmarshal{}) })
+	}},
 }
 
-// F80 is the finding discovered by C20: nil elements inside repeated message fields are dereferenced.
-const F80 = "F80-nil-repeated-element-panic"
+// Findings discovered by C20.
+const (
+	// F80: nil elements inside repeated message fields are dereferenced.
+	F80 = "F80-nil-repeated-element-panic"
+	// F81: with BestEffortUnmarshal a prefix-join error is type-asserted to *ComplianceErrors.
+	F81 = "F81-besteffort-join-error-panic"
+)
+
+// originClash: the prefix and some path of the message carry different non-empty origins or targets
+// (util.JoinPaths refuses to join them).
+func originClash(req *gpb.SetRequest, ns []*gpb.Notification) bool {
+	clash := func(prefix *gpb.Path, ps []*gpb.Path) bool {
+		for _, p := range ps {
+			if (prefix.GetOrigin() != "" && p.GetOrigin() != "" && prefix.GetOrigin() != p.GetOrigin()) ||
+				(prefix.GetTarget() != "" && p.GetTarget() != "" && prefix.GetTarget() != p.GetTarget()) {
+				return true
+			}
+		}
+		return false
+	}
+	paths := func(del []*gpb.Path, ups ...[]*gpb.Update) []*gpb.Path {
+		out := append([]*gpb.Path(nil), del...)
+		for _, l := range ups {
+			for _, u := range l {
+				out = append(out, u.GetPath())
+			}
+		}
+		return out
+	}
+	if req != nil && clash(req.Prefix, paths(req.Delete, req.Update, req.Replace)) {
+		return true
+	}
+	for _, n := range ns {
+		if n != nil && clash(n.Prefix, paths(n.Delete, n.Update)) {
+			return true
+		}
+	}
+	return false
+}
 
 // panicID returns the id of the known finding whose signature p carries ("" if none).
 func panicID(p *panicInfo) string {
